@@ -538,6 +538,32 @@ func powOperands(r *rng.R, c dec.Ctx) (dec.D, dec.D) {
 	}
 }
 
+// floatToDec converts f to a decimal of nd significant digits (nearest).
+func floatToDec(f *big.Float, nd int) (dec.D, error) {
+	txt := f.Text('e', nd-1) // [-]d.ddde[+-]xx
+	neg := strings.HasPrefix(txt, "-")
+	txt = strings.TrimPrefix(txt, "-")
+	i := strings.IndexByte(txt, 'e')
+	if i < 0 {
+		return dec.D{}, fmt.Errorf("bad float text %q", txt)
+	}
+	mant, es := txt[:i], txt[i+1:]
+	var e int64
+	if _, err := fmt.Sscanf(es, "%d", &e); err != nil {
+		return dec.D{}, err
+	}
+	frac := 0
+	if j := strings.IndexByte(mant, '.'); j >= 0 {
+		frac = len(mant) - j - 1
+		mant = mant[:j] + mant[j+1:]
+	}
+	c, ok := new(big.Int).SetString(mant, 10)
+	if !ok {
+		return dec.D{}, fmt.Errorf("bad mantissa %q", mant)
+	}
+	return dec.D{Form: dec.Finite, Neg: neg, C: c, E: e - int64(frac)}, nil
+}
+
 // rangeEdgeCase aims Exp and Pow results at the decades around MaxExponent
 // and MinExponent, where overflow/underflow reporting is decided.
 func rangeEdgeCase(t *mon.T, which string) {
@@ -562,6 +588,34 @@ func rangeEdgeCase(t *mon.T, which string) {
 		e := int64(math.Floor(math.Log10(f))) - int64(digits) + 1
 		m := int64(f / math.Pow(10, float64(e)))
 		return dec.D{Form: dec.Finite, Neg: neg, C: big.NewInt(m), E: e}
+	}
+	if r.Chance(1, 4) {
+		// arguments that hug the overflow threshold (Emax+1)*ln(10) from below,
+		// or the threshold of the smallest representable value from above, to
+		// within a few units of digit Precision+3..Precision+9: any test of the
+		// form "x > bound" with a rounded bound decides these wrongly
+		w := uint(400 + 4*c.P)
+		ln10 := encl.Ln10(w).Lo
+		k := c.Emax + 1
+		if r.Chance(1, 3) {
+			k = c.Etiny()
+		}
+		T := new(big.Float).SetPrec(w).Mul(ln10, new(big.Float).SetPrec(w).SetInt64(k))
+		// move a hair towards zero (inside the range), then cut to nd digits towards zero
+		nd := int(c.P) + 3 + r.Intn(7)
+		hair := new(big.Float).SetPrec(w).SetMantExp(big.NewFloat(1), -int(float64(c.P+int64(3+r.Intn(8)))*3.33))
+		T.Mul(T, new(big.Float).SetPrec(w).Sub(big.NewFloat(1), hair))
+		x, err := floatToDec(T, nd) // rounds to nearest; stepped towards zero below
+		if err == nil {
+			// make sure |x| <= |T|: step one unit towards zero
+			x.C = new(big.Int).Sub(x.C, bOne)
+			if x.C.Sign() > 0 {
+				transCase(t, which, "exp", c, x, dec.D{})
+				t.Count("range-edge/exp-threshold")
+				t.Count("range-edge/exp")
+				return
+			}
+		}
 	}
 	if r.Bool() {
 		x := toDec(tgt*math.Ln10, 6+r.Intn(8))
